@@ -1032,6 +1032,9 @@ func NewModifiedFeaturesWithCopies(new Feature, features []b6.Feature, byID *Fea
 	}
 	m.copied = append(m.copied, false)
 	for _, f := range features {
+		if f.FeatureID() == new.FeatureID() {
+			continue // A feature that references itself: it's being replaced, not copied
+		}
 		if existing := byID.FindMutableFeatureByID(f.FeatureID()); existing != nil {
 			m.features = append(m.features, existing)
 			m.tokens = append(m.tokens, TokensForFeature(f))
